@@ -101,7 +101,7 @@ Proof.
 Qed.
 
 Theorem to_array_spec : forall vals a len s e fs fe missing,
-  wig_ok a len vals -> s < e -> s <= fs -> fe <= e -> fs <= fe \/ len <= fs ->
+  wig_ok a len vals -> s < e -> s <= fs -> fe <= e \/ fe <= a -> fs <= fe \/ len <= fs ->
   to_array s e (fetch_wig vals fs fe) missing (Z.to_nat (e - s))
   = Ok (map (fun p => match (if (fs <=? p) && (p <? fe) then wig_at vals p else None) with
                       | Some z => OQ z 1 | None => out_of_fl missing end)
@@ -239,8 +239,6 @@ Section WigBins.
 Variables (s e fs fe bins : Z) (st : stat) (missing : fl).
 Hypothesis Hse : s < e.
 Hypothesis Hbins : 0 < bins <= e - s.
-Hypothesis Hfs : s <= fs.
-Hypothesis Hfe : fe <= e.
 
 Let is_ := fun iv => Z.max (w_start iv) s - s.
 Let ie := fun iv => Z.min (w_end iv) e - s.
@@ -270,6 +268,10 @@ Proof.
     set (lo := s + Eb k) in *. set (hi := s + Eb (k + 1)) in *.
     assert (Hlh : lo < hi).
     { unfold lo, hi, Eb. pose proof (bin_edge_strict k (e - s) bins ltac:(lia) ltac:(lia)). lia. }
+    assert (Hfs : s <= lo).
+    { unfold lo, Eb. pose proof (bin_edge_nonneg k (e - s) bins ltac:(lia) ltac:(lia) ltac:(lia)). lia. }
+    assert (Hfe : hi <= e).
+    { unfold hi, Eb. pose proof (bin_edge_le_span (k + 1) (e - s) bins ltac:(lia) ltac:(lia) ltac:(lia)). lia. }
     apply wrep_fin. rewrite (covered_vals_wig vals a len Hok).
     unfold acc. rewrite fetch_wig_fold.
     rewrite (fold_left_ext_in _ (wstep st lo hi)).
